@@ -42,12 +42,12 @@ pub fn new_box(area: &str) -> Option<Box<dyn VerifBox>> {
 pub fn areas() -> Vec<&'static str> {
     vec![
         "c04",
+        "c10",
         "c14",
         "c17",
         "c18",
         "c19",
     ]
-    vec!["c10", "c17"]
 }
 
 /// Decode a hex string.
